@@ -9,10 +9,19 @@
      (E2eModel.uc_step; model = size of the state-machine metrics map, spec =
      accepted - lost). Where they differ the class is KC (known finding C15-4:
      a connected router is not counted before its first message).
-   - `L` / `H` reload the configuration (with / without a new listen port): a
-     no-op for everything observed here - sessions, routes and counters are
-     kept, and routers that connect afterwards are served (they were not before
-     fix fde831a, finding C13-reload-drops). *)
+   - `L [v]` / `H [v]` reload the configuration (with / without a new listen
+     port; v selects a variant of the bmp unit's router_id_template): a reload
+     does not change the pipeline model's world - sessions, register, RIB and
+     counters are kept, and routers that connect afterwards are served (they
+     were not before fix fde831a, finding C13-reload-drops). What a reload does
+     change is the settings in force: `V k` prints under which variant's
+     template router k's latest message was counted = the variant in force when
+     its session last derived its router id before that message (at the accept,
+     and again after every message whose outcome is a state transition or
+     `other`: router_handler.rs check_update_router_id); `t:-` while the
+     connection has not sent anything.
+   - `G k` prints how many ingress ids router k has been given: always 1
+     (find_existing_bmp_router under the unit's one ingress id: C14). *)
 open Conv
 open BmpModel
 open PipeModel
@@ -27,6 +36,9 @@ type item =
   | Conn of int
   | Metrics of int          (* M k: m-token and n-token *)
   | Disc of int             (* X k of a connected router *)
+  | Reload of int option
+  | Label of int            (* V k *)
+  | Ids of int              (* G k *)
 
 let split3 (s : string) : string list * string list * string list =
   let rec go acc cur = function
@@ -51,7 +63,9 @@ let run_case (line : string) : string =
       let self = join " " toks in
       match Stdlib.List.hd toks with
       | "O" | "A" | "Z" -> Skip
-      | "L" | "H" -> Skip
+      | "L" | "H" -> Reload (match toks with [_; v] -> Some (int_of_string v) | _ -> None)
+      | "V" -> Label (i 1)
+      | "G" -> Ids (i 1)
       | "C" -> let k = i 1 in
           if Stdlib.List.mem k !live then Skip else (live := k :: !live; push self; Conn k)
       | "X" -> let k = i 1 in
@@ -70,6 +84,10 @@ let run_case (line : string) : string =
     | _ -> failwith "pipe output too short" in
   (* pass 2 *)
   let uc = ref uc_init in
+  let variant = ref 0 in
+  (* live router -> (variant its session's router id is derived from, variant its latest message was counted under) *)
+  let conn : (int * (int * int option)) list ref = ref [] in
+  let set k v = conn := (k, v) :: Stdlib.List.remove_assoc k !conn in
   let res = ref [] in
   let emit a b c = res := (a, b, c) :: !res in
   Stdlib.List.iter (fun it ->
@@ -78,9 +96,27 @@ let run_case (line : string) : string =
       | Pass ->
           let (a, b, c) = next () in
           if starts "q:" a then emit a b c else emit "-" "-" "."
-      | Msg k -> ignore (next ()); uc := uc_step !uc (WMsg (n k, MInit)); emit "-" "-" "."
-      | Conn k -> ignore (next ()); uc := uc_step !uc (WConnect (n k)); emit "-" "-" "."
-      | Disc k -> ignore (next ()); uc := uc_step !uc (WDisconnect (n k)); emit "-" "-" "."
+      | Msg k ->
+          let (a, _, _) = next () in
+          (match Stdlib.List.assoc_opt k !conn with
+           | Some (cur, _) ->
+               (* the message is counted under the router id the session has; when its outcome is a state transition
+                  or `other` (Initiation, Peer Up, statistics ...) the handler then derives the id afresh from the
+                  template in force (router_handler.rs process_msg -> check_update_router_id; Dumping/Updating only) *)
+               let relabels = starts "t/1" a || starts "t/2" a || starts "o/1" a || starts "o/2" a in
+               let cur' = if relabels then !variant else cur in
+               set k (cur', Some cur)
+           | None -> ());
+          uc := uc_step !uc (WMsg (n k, MInit)); emit "-" "-" "."
+      | Conn k -> ignore (next ()); uc := uc_step !uc (WConnect (n k)); set k (!variant, None); emit "-" "-" "."
+      | Reload v -> (match v with Some v -> variant := v | None -> ()); emit "-" "-" "."
+      | Label k ->
+          (match Stdlib.List.assoc_opt k !conn with
+           | None -> emit "-" "-" "."
+           | Some (_, None) -> emit "t:-" "t:-" "."
+           | Some (_, Some v) -> let t = Printf.sprintf "t:%d" v in emit t t ".")
+      | Ids k -> if Stdlib.List.mem_assoc k !conn then emit "g:1" "g:1" "." else emit "-" "-" "."
+      | Disc k -> ignore (next ()); uc := uc_step !uc (WDisconnect (n k)); conn := Stdlib.List.remove_assoc k !conn; emit "-" "-" "."
       | Metrics _ ->
           let (a, b, c) = next () in
           if starts "m:" a then emit a b c else emit "-" "-" ".";
